@@ -43,13 +43,25 @@ RULE = ("schedules over {waiter k starts with timeout t_k, advertisement for id 
         "in the loop iterations before an outcome has reached the caller; the automaton cannot express that) are judged by the implementation-level oracle only (callback never raises, every "
         "waiter pending when a valid advertisement for its id is processed is completed with that discovery, cancelled / timed-out ones keep their own outcome, the discovery is recorded with the "
         "advertised numbers); RESTART scenarios through zeroconf's own record cache, browser handler and async_start (records cached before the start or announced later, cache hit / miss at the "
-        "end of the debounce, pairing loaded before / after the start, update with changed c# / s# / address / port). non-trivial = distinct (controller, schedule) / input / history")
+        "end of the debounce, pairing loaded before / after the start, update with changed c# / s# / address / port); CACHE-DRIVEN STARTS (async_start / async with / the aggregate's own async_start on "
+        "the IP, CoAP and aggregate controllers) over a zeroconf record cache that already holds 1..4 services whose PTR, SRV, TXT and address records are aged INDEPENDENTLY on zeroconf's own clock: "
+        "age 0, 1 s, 25 %, just below / at / just above half the TTL, 60-90 %, seconds before expiry, at / past expiry, long expired, absent; standard TTLs (75 min / 120 s) and odd ones; whole responses "
+        "received at one instant; the cache reaper run or not; accessories that answer a query or stay silent; malformed and foreign-type services next to valid ones; waiters (async_find / "
+        "async_reachable, either id casing) registered before or after the start; afterwards records refreshed unchanged (no browser event, by zeroconf's own rule), changed c# / s# / endpoint, "
+        "reaper runs and late waiters - judged from the harness's own book of what is validly advertised (a record is valid until its TTL has expired). "
+        "non-trivial = distinct (controller, schedule) / input / history")
 TRUSTED = ["zeroconf's AsyncServiceInfo accessors (duck-typed) and their IPv4-first ordering", "asyncio timers fire at their deadline under the virtual clock",
-           "histories / restart: the network and the radio refuse every connection attempt of a loaded pairing (aiohappyeyeballs.start_connection, aiocoap Context creation, bleak establish_connection are the mocked boundary)"]
+           "histories / restart: the network and the radio refuse every connection attempt of a loaded pairing (aiohappyeyeballs.start_connection, aiocoap Context creation, bleak establish_connection are the mocked boundary)",
+           "cache-start: zeroconf's DNSCache, DNSRecord expiry arithmetic and AsyncServiceInfo.load_from_cache are the real ones; the service browser is a stand-in that fires Added / Updated / Removed by "
+           "zeroconf's own rules (PTR new to the cache -> Added, other record new to the cache -> Updated, expired PTR reaped -> Removed, a refresh of a cached record -> nothing), a query is answered after 0.1 s by an "
+           "accessory that is on line; BleakScanner is a stand-in (the radio)"]
 ASSUMPTIONS = ["one model event = one harness action followed by running the loop to quiescence at that virtual time",
                "TXT numbers are plain decimal digit strings or non-numeric garbage (Python int()'s tolerance of sign/space/underscore is outside the model's domain)",
                "histories: an outcome has reached the caller 10 loop iterations after it was decided; a cancel the caller issues inside that window, or the timeout timer firing in the very loop "
-               "iteration in which the advertisement was processed just before it, may replace the outcome (asyncio semantics) - for that waiter both outcomes are accepted, nothing else is relaxed"]
+               "iteration in which the advertisement was processed just before it, may replace the outcome (asyncio semantics) - for that waiter both outcomes are accepted, nothing else is relaxed",
+               "cache-start: record ages are on zeroconf's own monotonic clock, which the virtual loop clock does not advance (the few virtual seconds of a case do not age a record); a record whose "
+               "expiry falls inside the 3 s of real time a case may take is neither valid nor expired for the oracle (either outcome accepted for its id); a superseded unique record leaves the cache at once "
+               "(zeroconf: within 1 s)"]
 EXPLANATION = "Lean theorems C19_* over the waiter automaton (woken, timeout, cancel, frame/order independence) and the two parsers; differential tie through IpController / BleController / Controller.async_find under virtual time"
 
 IDS = {7: "AA:BB:CC:DD:EE:07", 8: "aa:bb:cc:dd:ee:08"}
@@ -303,6 +315,7 @@ def run(ctx: Ctx, driver: Driver):
     loop.close()
     history_streams(ctx, driver, rng)
     restart_streams(ctx, rng)
+    cache_start_streams(ctx, rng)
     from harness.c19_micro import run_micro
     run_micro(ctx, driver)
 
@@ -1374,6 +1387,641 @@ def restart_streams(ctx, rng):
     ctx.sample(cases[0])
 
 
+# ---------------------------------------------------------------- cache-driven start: records of every age in zeroconf's own cache
+# One case = {controller: ip | coap | aggregate, enter: start | with, reap: bool, services: [...], pairing, cache, events: [...]}.
+#   service  {n: device number (CS_IDS), via: i (_hap._tcp) | c (_hap._udp), c, s, ep: what the accessory announces, upper: TXT keys in upper case,
+#             ttl: [PTR, SRV, TXT, A/AAAA] seconds, age: [PTR, SRV, TXT, A/AAAA] milliseconds the record was received BEFORE the start (null = not in
+#             the cache), online: the accessory answers a query, bad: null | noid | ll | c# | type (a malformed / foreign service: ignored)}
+#   events   [W, at, k, n, timeout_ms, find | reachable]   waiter k starts waiting for device n (at = -1: BEFORE the start, else ms after it began)
+#            [R, at, j, kinds]    service j's records of `kinds` (letters p s t a) are received again, unchanged (a refresh)
+#            [U, at, j, dc, ds, ep]  the accessory of service j changes c# / s# / endpoint and announces all its records
+#            [E, at]              zeroconf's cache reaper runs
+# The harness's book (CsWorld) follows from what the harness itself put on the network and from zeroconf's rules only:
+#   * at the start every service of the controller's type whose PTR, SRV, TXT and address records are all unexpired is a valid advertisement
+#     the start has to process: a waiter for its id is completed no later than the start (or its own registration);
+#   * a browser event the stand-in delivered at t for a service whose SRV / TXT / address records are then unexpired is processed when the
+#     0.5 s debounce ends; a query the controller itself sent for a service and that the accessory answered is processed with the answer;
+#   * a service the controller knows of (valid PTR at the start, browser event later) whose other records are expired or missing is resolved
+#     by one query (0.1 s round trip, as in the restart stream) when its accessory is on line;
+#   * a device none of whose services is valid, whose accessory is silent and about which nothing arrives later must NOT wake anyone (bad
+#     services never do); everything else (expired PTR still in the cache, a record expiring during the case, ...) may or may not.
+HAP_TCP, HAP_UDP = "_hap._tcp.local.", "_hap._udp.local."
+CS_HAP = {"i": HAP_TCP, "c": HAP_UDP}
+CS_IDS = {7: IDS[7], 8: IDS[8], 9: "Aa:bB:cC:dD:eE:09", 10: "AA:BB:CC:DD:EE:0A", 11: "aa:bb:cc:dd:ee:0b"}
+CS_KINDS = ("ptr", "srv", "txt", "a")
+CS_LETTER = {"p": "ptr", "s": "srv", "t": "txt", "a": "a"}
+CS_GUARD = 3000     # ms of real time a case may take; a record that expires inside this window is neither valid nor expired for the oracle
+CS_TTLS = [[4500, 120, 4500, 120], [120, 120, 120, 120], [75, 60, 30, 17], [4500, 4500, 4500, 4500], [86400, 3600, 7200, 240], [10, 10, 10, 10], [4500, 120, 120, 4500], [600, 4500, 60, 4500]]
+CS_LABELS = ["0", "1s", "25", "h-", "h", "h+", "60", "75", "90", "late", "x", "x+", "xx", "old", "-"]
+CS_VALID = CS_LABELS[:10]
+CS_COVERED = {"ip": (HAP_TCP,), "coap": (HAP_UDP,), "aggregate": (HAP_TCP, HAP_UDP)}
+
+
+def cs_age(label, ttl):
+    """age in ms of a record of the given TTL (s) for an age class; the classes below expiry leave the record CS_GUARD + 1 s to live and
+    "just below half" stays below half for as long (real time passes between filling the cache and the start: a margin of 1 ms would not replay)"""
+    ms = ttl * 1000
+    late = ms - CS_GUARD - 1000
+    a = {"0": 0, "1s": 1000, "25": ms // 4, "h-": ms // 2 - CS_GUARD - 1000, "h": ms // 2, "h+": ms // 2 + 1, "60": ms * 6 // 10, "75": ms * 3 // 4, "90": ms * 9 // 10,
+         "late": late, "x": ms, "x+": ms + 1, "xx": ms * 3 // 2, "old": ms * 3, "-": None}[label]
+    if a is not None and a < ms:
+        a = max(0, min(a, late))
+    return a
+
+
+def cs_vals(svc):
+    return (svc["c"], svc["s"], [a for a in EPS[svc["ep"]][0] if a.startswith("10.")][0], EPS[svc["ep"]][1])
+
+
+def cs_name(svc):
+    return f"dev{svc['n']:02d}.{CS_HAP[svc['via']]}"
+
+
+def cs_records(svc, stamps):
+    """zeroconf's own record objects for what the accessory of `svc` announces; stamps = {kind: (created_ms, ttl_s)} -> {kind: [records]}"""
+    from zeroconf import DNSAddress, DNSPointer, DNSService, DNSText
+    from zeroconf.asyncio import AsyncServiceInfo
+    hap = CS_HAP[svc["via"]]
+    out = {}
+    if svc.get("bad") == "type":
+        # a pointer under the HAP type whose instance name belongs to another service type
+        if "ptr" in stamps:
+            out["ptr"] = [DNSPointer(hap, 12, 1, stamps["ptr"][1], f"dev{svc['n']:02d}._http._tcp.local.", stamps["ptr"][0])]
+        return out
+    addrs, port = EPS[svc["ep"]][:2]
+    props = {"id": CS_IDS[svc["n"]], "c#": str(svc["c"]), "s#": str(svc["s"]), "sf": "0", "ff": "0", "ci": "5", "md": "m"}
+    bad = svc.get("bad")
+    if bad == "noid":
+        del props["id"]
+    elif bad == "ll":
+        addrs = ["169.254.7.7", "fe80::7"]
+    elif bad == "c#":
+        props["c#"] = "x"
+    if svc.get("upper"):
+        props = {k.upper(): v for k, v in props.items()}
+    info = AsyncServiceInfo(hap, cs_name(svc), addresses=[ipaddress.ip_address(a).packed for a in addrs], port=port,
+                            properties={k.encode(): v.encode() for k, v in props.items()}, weight=0, priority=0)
+
+    def cls(r):
+        return r.class_ | (0x8000 if r.unique else 0)
+    if "ptr" in stamps:
+        r = info.dns_pointer()
+        out["ptr"] = [DNSPointer(r.name, r.type, cls(r), stamps["ptr"][1], r.alias, stamps["ptr"][0])]
+    if "srv" in stamps:
+        r = info.dns_service()
+        out["srv"] = [DNSService(r.name, r.type, cls(r), stamps["srv"][1], r.priority, r.weight, r.port, r.server, stamps["srv"][0])]
+    if "txt" in stamps:
+        r = info.dns_text()
+        out["txt"] = [DNSText(r.name, r.type, cls(r), stamps["txt"][1], r.text, stamps["txt"][0])]
+    if "a" in stamps:
+        out["a"] = [DNSAddress(r.name, r.type, cls(r), stamps["a"][1], r.address, scope_id=r.scope_id, created=stamps["a"][0]) for r in info.dns_addresses()]
+    return out
+
+
+class CsWorld:
+    """The network side of a cache-start case - what every accessory announces, zeroconf's record cache, a stand-in for zeroconf's service
+    browser (Added / Updated / Removed by zeroconf's own rules) - and the harness's book of what the controller has been given."""
+
+    def __init__(self, loop, case, errors):
+        from zeroconf import DNSCache, ServiceStateChange, current_time_millis
+        from zeroconf._services import Signal
+        self.loop, self.case, self.errors = loop, case, errors
+        self.t0 = loop.time()
+        self.clock = current_time_millis
+        self.change = ServiceStateChange
+        self.cache = DNSCache()
+        self.signal = Signal()
+        self.zc = mock.Mock(name="Zeroconf")
+        self.zc.cache = self.cache
+        self.svcs = [dict(s) for s in case["services"]]
+        self.by_name = {}
+        for j, s in enumerate(self.svcs):
+            self.by_name[cs_name(s).lower()] = j
+            if s.get("bad") == "type":
+                self.by_name[f"dev{s['n']:02d}._http._tcp.local."] = j
+        self.state = [dict.fromkeys(CS_KINDS, "absent") for _ in self.svcs]
+        self.book = [{"avail": None, "vals": None, "may": False, "amb": False, "touched": False, "announced": [cs_vals(s)]} for s in self.svcs]
+        self.covered = CS_COVERED[case["controller"]]
+        self.started = False
+        self.reach_tasks = set()
+        self.queries = self.fired = 0
+        self.now0 = None
+
+    def vnow(self):
+        return round((self.loop.time() - self.t0) * 1000)
+
+    # ---- the book
+    def complete(self, j):
+        return not self.svcs[j].get("bad") and all(self.state[j][k] == "valid" for k in ("srv", "txt", "a"))
+
+    def resolvable(self, j):
+        """the cache holds no complete valid record set for the service, but its accessory answers the one query that takes (0.1 s)"""
+        return not self.svcs[j].get("bad") and self.svcs[j]["online"] and not any(self.state[j][k] == "amb" for k in ("srv", "txt", "a"))
+
+    def processed(self, j, t):
+        if CS_HAP[self.svcs[j]["via"]] not in self.covered:
+            return
+        b = self.book[j]
+        b["avail"] = t if b["avail"] is None else min(b["avail"], t)
+        b["vals"] = cs_vals(self.svcs[j])
+
+    # ---- the cache before the start
+    def fill(self):
+        self.now0 = now0 = self.clock()
+        for j, s in enumerate(self.svcs):
+            stamps = {k: (now0 - s["age"][i], s["ttl"][i]) for i, k in enumerate(CS_KINDS) if s["age"][i] is not None}
+            recs = cs_records(s, stamps)
+            for k, rs in recs.items():
+                expiry = stamps[k][0] + stamps[k][1] * 1000
+                self.state[j][k] = "valid" if expiry > now0 + CS_GUARD else "expired" if expiry <= now0 else "amb"
+                if self.state[j][k] == "amb":
+                    self.book[j]["may"] = self.book[j]["amb"] = True
+                self.cache.async_add_records(rs)
+
+    def at_start(self):
+        """the advertisements the start finds valid in the cache"""
+        for j in range(len(self.svcs)):
+            st = self.state[j]
+            if st["ptr"] == "valid" and self.complete(j):
+                self.processed(j, self.vnow())
+            elif st["ptr"] == "valid" and self.resolvable(j):
+                self.processed(j, self.vnow() + 100)
+            elif st["ptr"] in ("expired", "amb") and not self.svcs[j].get("bad"):
+                self.book[j]["may"] = True      # the pointer has expired but is still in the cache
+        self.started = True
+
+    # ---- zeroconf's side
+    def _service_of(self, rec):
+        return self.by_name.get((rec.alias if rec.type == 12 else rec.name).lower())
+
+    def fire(self, pend):
+        for (name, type_), change in pend.items():
+            j = self.by_name.get(name.lower())
+            if self.started and j is not None and change is not self.change.Removed and type_ in self.covered and (self.complete(j) or self.resolvable(j)):
+                self.processed(j, self.vnow() + (500 if self.complete(j) else 600))
+            self.fired += 1
+            try:
+                self.signal.fire(zeroconf=self.zc, service_type=type_, name=name, state_change=change)
+            except Exception as ex:  # noqa: BLE001
+                self.errors.append(("callback", "browser", type(ex).__name__, repr(ex)[:160]))
+
+    @staticmethod
+    def _enqueue(pend, change, type_, name, ch):
+        key = (name, type_)
+        if change is ch.Added or (change is ch.Removed and pend.get(key) is not ch.Added) or (change is ch.Updated and key not in pend):
+            pend[key] = change
+
+    def reap(self):
+        """zeroconf's periodic cache cleanup: expired records leave the cache, an expired pointer is reported as Removed"""
+        pend = {}
+        for rec in self.cache.async_expire(self.clock()):
+            j = self._service_of(rec)
+            if j is not None:
+                kind = {12: "ptr", 33: "srv", 16: "txt"}.get(rec.type, "a")
+                self.state[j][kind] = "absent"
+            if rec.type == 12 and rec.name in (HAP_TCP, HAP_UDP):
+                self._enqueue(pend, self.change.Removed, rec.name, rec.alias, self.change)
+        self.fire(pend)
+
+    def deliver(self, recs):
+        """records arrive from the network: RecordManager.async_updates_from_response + ServiceBrowser.async_update_records"""
+        ch = self.change
+        now = self.clock()
+        pend = {}
+        flat = [r for rs in recs.values() for r in rs]
+        for r in flat:
+            old = self.cache.get(r)
+            if r.type == 12:
+                if old is None:
+                    self._enqueue(pend, ch.Added, r.name, r.alias, ch)
+                elif r.is_expired(now):
+                    self._enqueue(pend, ch.Removed, r.name, r.alias, ch)
+                continue
+            if old is not None or r.is_expired(now):
+                continue
+            names = [x.name for x in self.cache.async_entries_with_server(r.name)] if r.type in (1, 28) else [r.name]
+            for name in names:
+                for type_ in (HAP_TCP, HAP_UDP):
+                    if name.endswith(type_):
+                        self._enqueue(pend, ch.Updated, type_, name, ch)
+        # a unique record set replaces what was cached under the same name and type (RFC 6762 10.2)
+        for k, rs in recs.items():
+            if k != "ptr" and rs:
+                stale = [x for x in self.cache.async_all_by_details(rs[0].name, rs[0].type, rs[0].class_) if x not in rs]
+                if k == "a":
+                    stale += [x for x in self.cache.async_all_by_details(rs[0].name, 28 if rs[0].type == 1 else 1, rs[0].class_) if x not in rs]
+                if stale:
+                    self.cache.async_remove_records(stale)
+        self.cache.async_add_records([r for r in flat if r.type in (1, 28)])
+        self.cache.async_add_records([r for r in flat if r.type not in (1, 28)])
+        self.fire(pend)
+
+    def announce(self, j, kinds):
+        """the accessory of service j sends its current records of `kinds`"""
+        s = self.svcs[j]
+        now = self.clock()
+        recs = cs_records(s, {k: (now, s["ttl"][CS_KINDS.index(k)]) for k in kinds})
+        for k in recs:
+            self.state[j][k] = "valid"
+        self.book[j]["touched"] = True
+        self.deliver(recs)
+
+    def change_values(self, j, dc, ds, ep):
+        s = self.svcs[j]
+        s["c"], s["s"], s["ep"] = s["c"] + dc, s["s"] + ds, ep
+        self.book[j]["announced"].append(cs_vals(s))
+        self.announce(j, CS_KINDS)
+
+    async def answer(self, info):
+        """the network: one query for a service, answered 0.1 s later by an accessory that is on line.  Returns whether the answer is an
+        advertisement the controller asked for itself in order to process it (a reachability probe of a caller is not)"""
+        self.queries += 1
+        probe = asyncio.current_task() in self.reach_tasks
+        await asyncio.sleep(0.1)
+        j = self.by_name.get(info.name.lower())
+        if j is not None and self.svcs[j]["online"] and self.svcs[j].get("bad") != "type":
+            self.announce(j, CS_KINDS)
+            if self.complete(j) and not probe:
+                self.processed(j, self.vnow())
+
+    # ---- verdict per device
+    def device(self, n):
+        js = [j for j, s in enumerate(self.svcs) if s["n"] == n and CS_HAP[s["via"]] in self.covered]
+        avails = [self.book[j]["avail"] for j in js if self.book[j]["avail"] is not None]
+        never = []
+        for j in js:
+            s, b, st = self.svcs[j], self.book[j], self.state[j]
+            never.append(bool(s.get("bad")) or (b["avail"] is None and not b["amb"] and not b["touched"] and not s["online"] and any(st[k] in ("expired", "absent") for k in ("srv", "txt", "a"))))
+        return {"avail": min(avails) if avails else None, "never": all(never),
+                "announced": [v[:2] for j in js for v in self.book[j]["announced"]]}
+
+
+async def run_cache_start(loop, case, errors):
+    import aiohomekit.controller.ble.controller as blemod
+    import aiohomekit.zeroconf as zcmod
+    from aiohomekit.controller.coap.controller import CoAPController
+    from zeroconf.asyncio import AsyncServiceInfo
+    kind = case["controller"]
+    world = CsWorld(loop, case, errors)
+
+    class BrowserStub:
+        types = [HAP_TCP, HAP_UDP]
+
+        def __init__(self):
+            self.service_state_changed = world.signal.registration_interface
+
+    class ScannerStub:
+        discovered_devices_and_advertisement_data = {}
+
+        def __init__(self, detection_callback=None, **kw):
+            self.detection_callback = detection_callback
+
+        async def start(self):
+            return None
+
+        async def stop(self):
+            return None
+
+    class Info(AsyncServiceInfo):
+        async def async_request(self, zc, timeout, *a, **k):
+            await world.answer(self)
+            return self.load_from_cache(zc)
+    azc = mock.Mock(name="AsyncZeroconf")
+    azc.zeroconf = world.zc
+    world.zc.listeners = [BrowserStub()]
+    out, details, starts, tasks = {}, {}, {}, {}
+    pairing = case.get("pairing")
+    stack = contextlib.AsyncExitStack()
+
+    def load():
+        pid = CS_IDS[7].upper() if pairing.get("upper") else CS_IDS[7].lower()
+        try:
+            if loader("alias", pairing_data_for(pairing["conn"], pid)) is None:
+                errors.append(("load-pairing", pairing["conn"], "None", "load_pairing returned no pairing"))
+        except Exception as ex:  # noqa: BLE001
+            errors.append(("load-pairing", pairing["conn"], type(ex).__name__, repr(ex)[:160]))
+
+    async def waiter(k, n, timeout, api):
+        did = CS_IDS[n].lower() if k % 2 else CS_IDS[n].upper()
+        try:
+            if api == "reachable":
+                ok = await ctl.async_reachable(did, timeout / 1000)
+                out[k] = ("found@" if ok is True else "notfound@" if ok is False else f"odd:{ok!r}@") + str(world.vnow())
+            else:
+                d = await ctl.async_find(did, timeout / 1000)
+                if d is None:
+                    out[k] = "none"
+                else:
+                    out[k] = f"found@{world.vnow()}"
+                    details[k] = (d.description.id, d.description.config_num, d.description.state_num)
+        except AccessoryNotFoundError:
+            out[k] = f"notfound@{world.vnow()}"
+        except asyncio.CancelledError:
+            out[k] = "cancelled"
+            raise
+        except Exception as e:  # noqa: BLE001
+            out[k] = "exc:" + type(e).__name__
+
+    def start_waiter(ev):
+        _, _, k, n, timeout, api = ev
+        if k in tasks:
+            return
+        starts[k] = (world.vnow(), n, timeout, api)
+        tasks[k] = asyncio.ensure_future(waiter(k, n, timeout, api))
+        if api == "reachable":
+            world.reach_tasks.add(tasks[k])
+    with mock.patch.object(zcmod, "AsyncServiceBrowser", BrowserStub), mock.patch.object(zcmod, "AsyncServiceInfo", Info), mock.patch.object(blemod, "BleakScanner", ScannerStub):
+        world.fill()
+        if case.get("reap"):
+            world.reap()
+        cache = hist_cache({"cache": case.get("cache"), "pairing": pairing})
+        if kind == "aggregate":
+            ctl = Controller(async_zeroconf_instance=azc, char_cache=cache)
+        else:
+            ctl = (IpController if kind == "ip" else CoAPController)(char_cache=cache, zeroconf_instance=azc)
+        loader = ctl.load_pairing
+        if pairing and pairing["when"] == "before":
+            load()
+        events = sorted(case["events"], key=lambda e: e[1])
+        for ev in events:
+            if ev[0] == "W" and ev[1] < 0:
+                start_waiter(ev)
+        for _ in range(case.get("gap", 6)):
+            await asyncio.sleep(0)
+        world.at_start()
+        try:
+            if case.get("enter") == "with":
+                await stack.enter_async_context(ctl)
+            else:
+                await ctl.async_start()
+                stack.push_async_callback(ctl.async_stop)
+        except Exception as ex:  # noqa: BLE001
+            errors.append(("callback", "async_start", type(ex).__name__, repr(ex)[:160]))
+        if pairing and pairing["when"] == "after":
+            load()
+        for _ in range(6):
+            await asyncio.sleep(0)
+        last = 0
+        for ev in events:
+            if ev[1] < 0:
+                continue
+            target = world.t0 + ev[1] / 1000
+            if target > loop.time():
+                await asyncio.sleep(target - loop.time())
+            last = max(last, world.vnow())
+            if ev[0] == "W":
+                start_waiter(ev)
+            elif ev[0] == "R":
+                world.announce(ev[2], [CS_LETTER[x] for x in ev[3]])
+            elif ev[0] == "U":
+                world.change_values(ev[2], ev[3], ev[4], ev[5])
+            elif ev[0] == "E":
+                world.reap()
+            for _ in range(6):
+                await asyncio.sleep(0)
+        end = max([last + 1300] + [ts + to + 700 for ts, _, to, _ in starts.values()])
+        if world.t0 + end / 1000 > loop.time():
+            await asyncio.sleep(world.t0 + end / 1000 - loop.time())
+        for _ in range(6):
+            await asyncio.sleep(0)
+        recorded = []
+        try:
+            async for d in ctl.async_discover():
+                ds = d.description
+                recorded.append((ds.id, ds.config_num, ds.state_num, getattr(ds, "address", None), getattr(ds, "port", None), getattr(ds, "type", None)))
+        except Exception as ex:  # noqa: BLE001
+            errors.append(("callback", "async_discover", type(ex).__name__, repr(ex)[:160]))
+        for k, t in tasks.items():
+            if not t.done():
+                out[k] = "pending"
+        try:
+            await stack.aclose()
+        except Exception as ex:  # noqa: BLE001
+            errors.append(("callback", "async_stop", type(ex).__name__, repr(ex)[:160]))
+        me = asyncio.current_task()
+        for _ in range(3):
+            rest = [t for t in asyncio.all_tasks(loop) if t is not me and not t.done()]
+            if not rest:
+                break
+            for t in rest:
+                t.cancel()
+            await asyncio.wait(rest, timeout=5)
+    slow = world.clock() - world.now0 >= CS_GUARD - 500
+    return out, details, starts, recorded, world, slow
+
+
+def judge_cache_start(ctx, case, res, errors):
+    out, details, starts, recorded, world, slow = res
+    kind = case["controller"]
+    if slow:
+        # the case took longer in real time than the oracle's guard: what was valid may have expired meanwhile - nothing is judged
+        ctx.dist["cache-start:inconclusive(slow)"] += 1
+        return
+    sv = [{k: s[k] for k in ("n", "via", "ttl", "age", "online", "bad")} for s in case["services"]]
+    label = f"cache before the start: {sv} (ages in ms, TTLs in s, record order PTR/SRV/TXT/address), reaper ran: {bool(case.get('reap'))}, pairing: {case.get('pairing')}, events: {case['events']}"
+    for what, via, exc, text in errors:
+        if what == "callback":
+            ctx.violation(f"callback/cache-start-{kind}/{exc}", f"{kind}: {via} raised {text} ({label})", case)
+        else:
+            ctx.violation(f"load-pairing/cache-start-{kind}/{exc}", f"{kind}: load_pairing raised {text} ({label})", case)
+    for k in sorted(starts):
+        ts, n, to, api = starts[k]
+        dl = ts + to
+        o = out.get(k, "pending")
+        dev = world.device(n)
+        did = CS_IDS[n].lower()
+        bound = None if dev["avail"] is None else max(ts, dev["avail"])
+        if not (o.startswith("found@") or o.startswith("notfound@")):
+            ctx.violation(f"waiter/cache-start-{kind}/{o.split('@')[0]}", f"{kind}: waiter {k} ({api}) for {did} ended with {o} ({label})", case)
+            break
+        t = int(o.split("@")[1])
+        if o.startswith("notfound@"):
+            if bound is not None and bound < dl:
+                ctx.violation(f"waiter/cache-start-{kind}/not-woken", f"{kind}: waiter {k} ({api}, registered at {ts} ms, timeout {to} ms) for {did} failed with not-found at {t} ms although a valid "
+                              f"advertisement for that id was there to be processed at {dev['avail']} ms ({label})", case)
+                break
+            if t != dl:
+                ctx.violation(f"waiter/cache-start-{kind}/wrong-outcome", f"{kind}: waiter {k} ({api}) for {did} failed with not-found at {t} ms, its timeout is at {dl} ms ({label})", case)
+                break
+        else:
+            if dev["never"]:
+                ctx.violation(f"waiter/cache-start-{kind}/woken-without-advertisement", f"{kind}: waiter {k} ({api}) for {did} was completed at {t} ms although no valid advertisement for that id exists ({label})", case)
+                break
+            if t > dl or (bound is not None and bound < dl and t > bound):
+                ctx.violation(f"waiter/cache-start-{kind}/woken-late", f"{kind}: waiter {k} ({api}, registered at {ts} ms) for {did} was completed at {t} ms; the valid advertisement was there to be "
+                              f"processed at {dev['avail']} ms, the timeout at {dl} ms ({label})", case)
+                break
+        if k in details and (details[k][0] != did or details[k][1:] not in dev["announced"]):
+            ctx.violation(f"waiter/cache-start-{kind}/wrong-discovery", f"{kind}: waiter {k} for {did} was completed with a discovery for {details[k][0]} c#={details[k][1]} s#={details[k][2]}; "
+                          f"announced (c#, s#): {dev['announced']} ({label})", case)
+            break
+    # what the controller was given is what it reports
+    for j, s in enumerate(world.svcs):
+        b = world.book[j]
+        if b["avail"] is None or b["may"]:
+            continue
+        did = CS_IDS[s["n"]].lower()
+        mine = [r for r in recorded if r[0] == did and r[5] in (None, CS_HAP[s["via"]])]
+        if not mine:
+            ctx.violation(f"discovery/cache-start-{kind}/not-recorded", f"{kind}: no discovery is reported for {did} although its valid advertisement was there to be processed at {b['avail']} ms ({label})", case)
+            break
+        if not any(r[1:5] == b["vals"] for r in mine):
+            ctx.violation(f"discovery/cache-start-{kind}/stale", f"{kind}: the discovery of {did} reports {mine}, the accessory last announced {b['vals']} ({label})", case)
+            break
+
+
+def run_cache_start_case(ctx, loop, case):
+    errors = []
+
+    def on_loop_error(lp, context):
+        # an exception that escaped a loop callback (the debounce timer, a call_soon'd callback).  A task whose exception nobody retrieved is
+        # not one: the aggregate's async_find leaves the not-found of its other transports behind when two of them finish in one iteration
+        if "handle" not in context:
+            return
+        ex = context.get("exception")
+        errors.append(("callback", "loop callback", type(ex).__name__ if ex is not None else "error", (repr(ex) if ex is not None else str(context.get("message")))[:160]))
+    loop._vt = float(int(loop._vt) + 2)
+    loop.set_exception_handler(on_loop_error)
+    try:
+        res = loop.run_until_complete(run_cache_start(loop, case, errors))
+    finally:
+        loop.set_exception_handler(None)
+    judge_cache_start(ctx, case, res, errors)
+    return res
+
+
+def cs_service(n, via, ttl, age, online=True, bad=None, c=3, s=4, ep=0, upper=False):
+    return {"n": n, "via": via, "c": c, "s": s, "ep": ep, "upper": upper, "ttl": list(ttl), "age": list(age), "online": online, "bad": bad}
+
+
+def cs_followup(rng, j, n, k0):
+    """what may happen after the start: unchanged refreshes, a change, the reaper, late waiters (announcements at least 0.75 s apart)"""
+    ev, t, k = [], 300, k0
+    for _ in range(rng.randrange(1, 4)):
+        t += rng.choice([750, 1000, 1900])
+        r = rng.random()
+        if r < 0.45:
+            ev.append(["R", t, j, rng.choice(["p", "psta", "psta", "a", "sa", "t", "pt", "s"])])
+        elif r < 0.75:
+            ev.append(["U", t, j, *rng.choice([(1, 0, 0), (0, 1, 0), (0, 0, 1), (0, 0, 2), (1, 1, 3), (0, 2, 0)])])
+        else:
+            ev.append(["E", t])
+        if rng.random() < 0.5 and k <= 6:
+            ev.append(["W", t + rng.choice([0, 150, 450, 520, 640]), k, n, rng.choice([300, 2000, 6000]), "find"])
+            k += 1
+    return ev
+
+
+def gen_cache_start(ctx, rng):
+    cases = []
+    # (1) one record kind of one service walks through every age class, the other kinds fresh or of any valid age; a fresh control
+    #     service and an id nobody advertises next to it
+    m = 0
+    ttls = CS_TTLS if ctx.thorough() else CS_TTLS[:5]
+    for kind in ("ip", "coap", "aggregate"):
+        for ttl in ttls:
+            for i in range(4):
+                for lab in CS_LABELS:
+                    m += 1
+                    via = {"ip": "i", "coap": "c"}.get(kind) or "ic"[m % 2]
+                    age = [cs_age("0" if m % 2 else rng.choice(CS_VALID), ttl[x]) for x in range(4)]
+                    age[i] = cs_age(lab, ttl[i])
+                    services = [cs_service(7, via, ttl, age, online=bool((m // 2) % 2), upper=bool(m % 3 == 0)),
+                                cs_service(8, via, CS_TTLS[0], [0, 0, 0, 0], c=1, s=1, ep=1)]
+                    before = kind != "aggregate" and (m // 4) % 2 == 0
+                    api = "reachable" if kind != "aggregate" and m % 5 == 0 else "find"
+                    ev = [["W", -1 if before else 200, 1, 7, 2000, api], ["W", -1 if before and m % 3 else 250, 2, 8, 2000, "find"], ["W", 200, 3, 9, 300, "find"]]
+                    if m % 3 == 0:
+                        ev += [["R", 1000, 0, "psta"[i]], ["W", 1450, 4, 7, 2000, "find"]]
+                    cases.append({"stream": "cache-start", "family": f"walk:{CS_KINDS[i]}:{lab}", "controller": kind, "enter": "with" if m % 4 == 0 else "start", "reap": m % 7 == 0,
+                                  "gap": 0 if m % 5 == 1 else 6, "services": services, "pairing": None, "cache": None, "events": ev})
+    # (2) a whole response received at one instant: every record has the same age, the TTLs differ
+    for kind in ("ip", "coap", "aggregate"):
+        for ttl in (CS_TTLS[0], CS_TTLS[4]):
+            marks = sorted({0, 1000} | {t * f + d for t in set(ttl) for f, d in ((500, -CS_GUARD - 1000), (500, 0), (500, 1), (1000, -CS_GUARD - 1000), (1000, 0), (1000, 1), (750, 0), (2000, 0))})
+            for age in marks:
+                for online in (True, False):
+                    m += 1
+                    via = {"ip": "i", "coap": "c"}.get(kind) or "ic"[m % 2]
+                    before = kind != "aggregate" and m % 2 == 0
+                    cases.append({"stream": "cache-start", "family": "one-instant", "controller": kind, "enter": "start", "reap": m % 5 == 0, "gap": 6,
+                                  "services": [cs_service(7, via, ttl, [max(0, age)] * 4, online=online)], "pairing": None, "cache": None,
+                                  "events": [["W", -1 if before else 200, 1, 7, 2000, "find"], ["W", 1450, 2, 7, 300, "find"]]})
+    # (3) the pointer arrives after the start (browser: Added): the debounce then finds the other records in the cache at every age
+    for kind in ("ip", "coap", "aggregate"):
+        for ttl in (CS_TTLS[0], CS_TTLS[2]) if not ctx.thorough() else CS_TTLS:
+            for i in (1, 2, 3):
+                for lab in CS_LABELS:
+                    for online in (True, False):
+                        m += 1
+                        via = {"ip": "i", "coap": "c"}.get(kind) or "ic"[m % 2]
+                        age = [cs_age("0" if m % 2 else rng.choice(CS_VALID), ttl[x]) for x in range(4)]
+                        age[0] = None if m % 3 else cs_age("xx", ttl[0])
+                        age[i] = cs_age(lab, ttl[i])
+                        before = kind != "aggregate" and (m // 2) % 2 == 0
+                        cases.append({"stream": "cache-start", "family": f"late-pointer:{CS_KINDS[i]}:{lab}", "controller": kind, "enter": "start", "reap": m % 3 == 0, "gap": 6,
+                                      "services": [cs_service(7, via, ttl, age, online=online, upper=bool(m % 5 == 0))], "pairing": None, "cache": None,
+                                      "events": [["W", -1 if before else 200, 1, 7, 6000, "find"], ["R", 1000, 0, "p"], ["W", 1000 + rng.choice([0, 150, 450, 520, 640, 900]), 2, 7, 2000, "find"]]})
+    # (4) random caches: 1..4 services, every record of its own age, valid / malformed / foreign-type services mixed, pairing loaded or not
+    for _ in range(ctx.budget(800, 12000)):
+        kind = rng.choice(["ip", "ip", "coap", "aggregate", "aggregate"])
+        own = {"ip": "i", "coap": "c"}.get(kind)
+        services = []
+        for n in rng.sample([7, 7, 8, 9, 10], rng.randrange(1, 5)):
+            if any(s["n"] == n for s in services):
+                continue
+            vias = [own if rng.random() < 0.85 else ("c" if own == "i" else "i")] if own else rng.choice([["i"], ["c"], ["i", "c"]])
+            for via in vias:
+                ttl = rng.choice(CS_TTLS)
+                if rng.random() < 0.3:
+                    a0 = rng.choice([0, 1000, 59000, 61000, 100000, 119000, 121000, 2249000, 2251000, 4000000, 4499000, 4501000, 9000000])
+                    age = [a0] * 4
+                else:
+                    age = [cs_age(rng.choice(CS_VALID if rng.random() < 0.7 else CS_LABELS), ttl[x]) for x in range(4)]
+                services.append(cs_service(n, via, ttl, age, online=rng.random() < 0.5, bad=rng.choice([None] * 14 + ["noid", "ll", "c#", "type"]),
+                                           c=rng.randrange(1, 5), s=rng.randrange(1, 5), ep=rng.randrange(len(EPS)), upper=rng.random() < 0.3))
+        ev, k = [], 1
+        for n in rng.sample([7, 8, 9, 10, 11], rng.randrange(1, 4)):
+            at = -1 if kind != "aggregate" and rng.random() < 0.5 else rng.choice([200, 250, 700])
+            ev.append(["W", at, k, n, rng.choice([300, 2000, 6000]), "reachable" if kind != "aggregate" and rng.random() < 0.25 else "find"])
+            k += 1
+        if rng.random() < 0.6:
+            j = rng.randrange(len(services))
+            ev += cs_followup(rng, j, services[j]["n"], k)
+        pairing = None
+        if rng.random() < 0.25 and any(s["n"] == 7 for s in services):
+            conn = {"ip": "IP", "coap": "CoAP"}.get(kind) or rng.choice(["IP", "CoAP"])
+            pairing = {"conn": conn, "upper": rng.random() < 0.5, "when": "after" if kind == "aggregate" else rng.choice(["before", "after"])}
+        cases.append({"stream": "cache-start", "family": "random", "controller": kind, "enter": rng.choice(["start", "with"]), "reap": rng.random() < 0.3, "gap": rng.choice([0, 1, 6]),
+                      "services": services, "pairing": pairing, "cache": ({"c": rng.randrange(1, 5), "s": rng.choice([None, 2]), "key": False} if pairing and rng.random() < 0.6 else None),
+                      "events": ev})
+    return cases
+
+
+def cache_start_streams(ctx, rng):
+    cases = gen_cache_start(ctx, rng)
+    loop = simnet.VLoop()
+    asyncio.set_event_loop(loop)
+    try:
+        with no_network():
+            for case in cases:
+                res = run_cache_start_case(ctx, loop, case)
+                world = res[4]
+                ctx.evaluations += 1
+                ctx.nontrivial.add(("cache-start", str(case)))
+                ctx.dist[f"cache-start:{case['family'].split(':')[0]}:{case['controller']}"] += 1
+                for j, s in enumerate(world.svcs):
+                    b = world.book[j]
+                    if CS_HAP[s["via"]] in world.covered:
+                        ctx.dist["cache-start:service:" + ("malformed" if s.get("bad") else "must-be-found" if b["avail"] is not None else "either" if not world.device(s["n"])["never"] else "must-not-be-found")] += 1
+                ctx.dist["cache-start:queries-sent"] += world.queries
+                ctx.dist["cache-start:browser-events"] += world.fired
+    finally:
+        loop.close()
+    ctx.sample(cases[0])
+    ctx.sample(cases[-1])
+
+
 def replay(ctx, driver, c):
     n = len(ctx.violations)
     stream = c.get("stream")
@@ -1381,7 +2029,7 @@ def replay(ctx, driver, c):
         from harness.c19_micro import replay_micro
         r = replay_micro(ctx, driver, c)
         return [r] if r else []
-    if stream not in ("histories", "restart", "waiters", "browser"):
+    if stream not in ("histories", "restart", "waiters", "browser", "cache-start"):
         return None
     loop = simnet.VLoop()
     asyncio.set_event_loop(loop)
@@ -1392,6 +2040,8 @@ def replay(ctx, driver, c):
                 judge_history(ctx, c, loop.run_until_complete(run_history(loop, c)))
             elif stream == "restart":
                 run_restart_case(ctx, loop, c)
+            elif stream == "cache-start":
+                run_cache_start_case(ctx, loop, c)
             elif stream == "waiters":
                 evs = [ptok(t) for t in c["events"]]
                 out, errors = loop.run_until_complete(run_schedule(loop, c["controller"], evs, c.get("pairing", "none")))
